@@ -283,9 +283,18 @@ class Harness:
 # obligations (dual mode: SymFloat -> SymBool, float -> bool)
 
 
+class NearBool(sx.SymBool):
+    """SymBool of |a-b| <= tol with the robust violation |a-b| > 1e-3(|a|+|b|)+1e-6 attached, so that a
+    counterexample can be asked to violate the equality by a margin that survives float replay."""
+    __slots__ = ('far',)
+
+
 def near(a, b, rel=1e-9):
     if sx.is_sym(a) or sx.is_sym(b):
-        return sx.SymBool(sx.close(a, b, rel=rel, abs_=1e-12))
+        r = NearBool(sx.close(a, b, rel=rel, abs_=1e-12))
+        la, lb = sx.lift(a), sx.lift(b)
+        r.far = sx.zabs(la - lb) > sx.lift(1e-6) + sx.lift(1e-3) * (sx.zabs(la) + sx.zabs(lb))
+        return r
     a, b = float(a), float(b)
     return abs(a - b) <= 1e-9 + 1e-6 * (abs(a) + abs(b))
 
@@ -535,6 +544,11 @@ def run_job(job):
                 if r == 'unsat':
                     out['distinct'].add((oid, shape))
                 elif r == 'sat':
+                    fars = [v.far for det, v in items if isinstance(v, NearBool)]
+                    if fars:        # prefer a counterexample that violates an equality by a margin (robust under float replay)
+                        r2, m2 = ex.check(z3.Or(*fars), pc=p.pc, timeout_ms=job.get('obl_timeout_ms', 10000))
+                        if r2 == 'sat':
+                            m = m2
                     vals = {k: sx.mval(m, v) for k, v in p.inputs.items()}
                     failing = [det for det, v in items if isinstance(v, sx.SymBool) and not z3.is_true(m.eval(v.t, model_completion=True))]
                     out['violations'].append(dict(obligation=oid, config=csum, detail=str(failing[:4]), values=vals, fixed=fixed, N=N, env=job.get('env')))
